@@ -321,8 +321,11 @@ class AlignmentAffine(HomogFamilyAlignment, Affine):
         target : :map:`PointCloud`
             The target pointcloud instance used in the alignment
         """
-        a = source.h_points()
-        b = target.h_points()
+        # the normal equations are formed in floating point: the products of
+        # integer-typed coordinates (pixel positions stored as uint16/int16)
+        # would silently wrap around
+        a = source.h_points().astype(np.float64, copy=False)
+        b = target.h_points().astype(np.float64, copy=False)
         return np.linalg.solve(np.dot(a, a.T), np.dot(a, b.T)).T
 
     def _set_h_matrix(self, value, copy=True, skip_checks=False):
